@@ -110,7 +110,7 @@ def solver_cmd(name, timeout):
     raise ValueError(name)
 
 
-def script_for(path, goal, with_model=False, pin=None, bare=False, light=False):
+def script_for(path, goal, with_model=False, pin=None, bare=False, light=False, opaque=False):
     """Compose the SMT-LIB script for one goal of one path (goal None = path feasibility).
     bare: leave out the precondition, the path condition and the lemma hypotheses (fewer assumptions:
     an `unsat` answer is still valid for the full script; used as a cheap first attempt)."""
@@ -119,7 +119,13 @@ def script_for(path, goal, with_model=False, pin=None, bare=False, light=False):
         s.append("(set-option :produce-models true)")
     s.append("(set-logic %s)" % path["logic"])
     s.append(path["decls"])
-    s.append(path["defs"])
+    if opaque:
+        # forget the definitions of the intermediate terms: each t.N becomes a free real (an abstraction:
+        # `unsat` for all values of the t.N is `unsat` for the particular ones). Decides goals that are
+        # consequences of the path condition as stated, without expanding any polynomial.
+        s.append(re.sub(r"\(define-fun (\S+) \(\) Real .*\)", r"(declare-fun \1 () Real)", path["defs"]))
+    else:
+        s.append(path["defs"])
     for a in path["ax"]:
         s.append("(assert %s)" % a)
     defs = path["def"]
@@ -131,8 +137,12 @@ def script_for(path, goal, with_model=False, pin=None, bare=False, light=False):
         for a in path["pre"]:
             s.append("(assert %s)" % a)
         pi = path["pi"]
-        if light:
-            # only the syntactically small half of the path condition (fewer assumptions: `unsat` stays valid)
+        if light == "focus" and goal is not None:
+            # only the path conditions that mention a term the goal mentions (fewer assumptions: `unsat` stays valid)
+            toks = set(re.findall(r"[A-Za-z_][\w.]*", goal["smt"])) - {"and", "or", "not", "true", "false"}
+            pi = [a for a in pi if toks & set(re.findall(r"[A-Za-z_][\w.]*", a))]
+        elif light:
+            # only the syntactically small half of the path condition
             pi = sorted(pi, key=len)[: max(1, (len(pi) + 1) // 2)]
         for a in pi:
             s.append("(assert %s)" % a)
@@ -456,13 +466,19 @@ def run_symx(prop, tier, seed, only=None):
         if g is not None and g["kind"] == "goal" and (pth["pre"] or pth["pi"] or g.get("hyps")) and pth["logic"] in ("QF_NRA", "ALL"):
             # identities usually hold without the path condition: try the bare script first (sound:
             # fewer assumptions), which spares nlsat the inequalities of the path condition
+            vo, _, dto = run_solver(solver_cmd("z3", 3), script_for(pth, g, opaque=True), 3)
+            if vo == "unsat":
+                return t, {"verdict": "unsat", "solver": "z3(opaque terms)", "time": dto, "solvers": {"z3(intermediate terms abstracted)": "unsat"}, "sha": hashlib.sha1(sc.encode()).hexdigest()[:12], "trivial": False}
             v0, _, dt0 = run_solver(solver_cmd("z3", 5), script_for(pth, g, bare=True), 5)
+            dt0 += dto
             if v0 == "unsat":
                 return t, {"verdict": "unsat", "solver": "z3(bare)", "time": dt0, "solvers": {"z3(bare)": "unsat"}, "sha": hashlib.sha1(sc.encode()).hexdigest()[:12], "trivial": g["smt"] in ("true",)}
-            if len(pth["pi"]) >= 4:
-                v1, _, dt1 = run_solver(solver_cmd("z3", 5), script_for(pth, g, light=True), 5)
-                if v1 == "unsat":
-                    return t, {"verdict": "unsat", "solver": "z3(light)", "time": dt0 + dt1, "solvers": {"z3(light)": "unsat"}, "sha": hashlib.sha1(sc.encode()).hexdigest()[:12], "trivial": False}
+            if len(pth["pi"]) >= 3:
+                for mode in ("focus", True):
+                    v1, _, dt1 = run_solver(solver_cmd("z3", 5), script_for(pth, g, light=mode), 5)
+                    dt0 += dt1
+                    if v1 == "unsat":
+                        return t, {"verdict": "unsat", "solver": "z3(%s)" % ("focus" if mode == "focus" else "light"), "time": dt0, "solvers": {"z3(subset of the path condition)": "unsat"}, "sha": hashlib.sha1(sc.encode()).hexdigest()[:12], "trivial": False}
         r = decide(sc, pth["logic"], to, cross=cross and g is not None)
         r["sha"] = hashlib.sha1(sc.encode()).hexdigest()[:12]
         r["trivial"] = g is not None and g["smt"] in ("true",)
